@@ -699,8 +699,8 @@ Proof.
   - destruct o as [j p q|j|j|p k|p k|p q|p q|j p q|j|p q]; cbn [is_next] in En; try discriminate.
     apply N.eqb_eq in En. subst j. cbn [sstep] in Es. cbn [List.length deliver].
     destruct (sits t i) as [|u us] eqn:Ei.
-    + inversion Es; subst. rewrite (IH t i Hr). rewrite Ei. reflexivity.
-    + inversion Es; subst. rewrite (IH _ i Hr). cbn [sits]. rewrite upd_same. reflexivity.
+    + injection Es as E1 E2. subst t' ob. rewrite (IH t i Hr). rewrite Ei. reflexivity.
+    + injection Es as E1 E2. subst t' ob. rewrite (IH _ i Hr). cbn [sits]. rewrite upd_same. reflexivity.
   - rewrite (IH t' i Hr). replace t' with (fst (sstep t o)) by (rewrite Es; reflexivity).
     rewrite (sstep_sits_other t o i Ho En). reflexivity.
 Qed.
